@@ -249,6 +249,44 @@ func (p *Prog) verifyFunc(fn *ssa.Function, ct *Contract) (res *FuncResult) {
 			Clause: "every store to field " + sa[0] + " is dominated by a call of " + sa[1],
 			Result: &SolverResult{Status: stt, Solver: "syntactic-scan", Output: fmt.Sprintf("stores: %d, not dominated by the call: %s", nStores, strings.Join(bad, ", "))}})
 	}
+	if ct.MapRangeCollects {
+		// syntactic obligation: the body of every loop that ranges over a map
+		// contains no call (besides builtins): the order of the map cannot
+		// influence anything but the order of what is collected
+		var found []string
+		for _, li := range findLoops(fn) {
+			isMapRange := false
+			for _, in := range li.header.Instrs {
+				if n, ok := in.(*ssa.Next); ok {
+					if r, ok := n.Iter.(*ssa.Range); ok {
+						if _, isMap := r.X.Type().Underlying().(*types.Map); isMap {
+							isMapRange = true
+						}
+					}
+				}
+			}
+			if !isMapRange {
+				continue
+			}
+			for b := range li.blocks {
+				for _, in := range b.Instrs {
+					if ci, ok := in.(ssa.CallInstruction); ok {
+						if _, isBuiltin := ci.Common().Value.(*ssa.Builtin); !isBuiltin {
+							found = append(found, p.pos(in.Pos()))
+						}
+					}
+				}
+			}
+		}
+		sort.Strings(found)
+		stt := "unsat"
+		if len(found) > 0 {
+			stt = "sat"
+		}
+		vc.obls = append(vc.obls, &Obligation{Name: key + "/map-range-collects-only", Kind: "scan", Goal: tTrue, Func: key, Pos: p.pos(fn.Pos()),
+			Clause: "loops that range over a map call nothing (iteration order is random)",
+			Result: &SolverResult{Status: stt, Solver: "syntactic-scan", Output: "calls inside a map range at " + strings.Join(found, ", ")}})
+	}
 	if ct.NoMapRange {
 		// syntactic obligation: no iteration over a Go map (whose order is random)
 		var found []string
